@@ -10,6 +10,7 @@ From Coq Require Import List ZArith Bool.
 From LJT Require Import gen.GenDest model.Dest model.WorstCase proofs.DestProofs proofs.DestLeak proofs.DestChunk proofs.WorstCaseProofs.
 From LJT Require Import gen.GenXformIcc model.XformIcc proofs.XformIccProofs proofs.WorstCaseBound.
 From LJT Require Import gen.GenEncoders model.Huff proofs.EncoderBounds proofs.DestGrowth proofs.WorstCaseShare proofs.DestIjgAny.
+From LJT Require Import model.WorstCaseMcu proofs.WorstCaseMcu.
 Import ListNotations.
 Local Open Scope Z_scope.
 Local Open Scope bool_scope.
@@ -304,6 +305,30 @@ Theorem C13_share_per_block_all_subsamplings :
           [0; 1; 2; 3; 4; 5; 6] = true.
 Proof. exact share_per_block_all_subsamplings. Qed.
 Print Assumptions C13_share_per_block_all_subsamplings.
+
+(* F6 sufficiency for colour: a single-scan baseline interleaved YCbCr image of any TurboJPEG subsampling level.  The scan is
+   the MCU-interleaved block sequence (component index, samples), each component with its own table pair and its own DC
+   predictor; byte stuffing is charged once for the whole scan.  If every block costs at most 504 bits under the tables of
+   its component, the entropy-coded bytes stay below tj3JPEGBufSize minus the 2048 bytes the formula reserves for headers. *)
+Theorem C13_bufsize_sufficient_when_ycbcr : forall tbls s w h blocks bytes bits,
+  In s ycbcr_levels -> 0 < w -> 0 < h ->
+  Z.of_nat (length blocks) = mcus w h s * blocks_per_mcu s ->
+  Forall (mcu_block_ok tbls 504) blocks ->
+  scan_size_mcu tbls 3 blocks = Some (bytes, bits) ->
+  bytes <= tj3JPEGBufSize w h s - bufsize_slack.
+Proof. exact bufsize_sufficient_when_ycbcr. Qed.
+Print Assumptions C13_bufsize_sufficient_when_ycbcr.
+
+(* the hypothesis is met, at every level, by blocks whose quantised AC coefficients are at most 7 in magnitude *)
+Theorem C13_bufsize_sufficient_when_ycbcr_small_coefs : forall dc ac s w h blocks bytes bits,
+  dc_tbl = Some dc -> ac_tbl = Some ac ->
+  In s ycbcr_levels -> 0 < w -> 0 < h ->
+  Z.of_nat (length blocks) = mcus w h s * blocks_per_mcu s ->
+  Forall (fun b => small_block (snd b)) blocks ->
+  scan_size_mcu (fun _ => (dc, ac)) 3 blocks = Some (bytes, bits) ->
+  bytes <= tj3JPEGBufSize w h s - bufsize_slack.
+Proof. exact bufsize_sufficient_when_ycbcr_small_coefs. Qed.
+Print Assumptions C13_bufsize_sufficient_when_ycbcr_small_coefs.
 
 (* ---- transform sizing incl. the marker overhead of the ICC chunks ---------------------------------- *)
 Theorem C13_xform_icc_bytes_sufficient_when : forall x k room, valid_setup x -> 0 <= k ->
